@@ -1,2 +1,4 @@
 import TransportVerif.Props.C06
-#print axioms TV.Props.C06.placeholder
+#print axioms TV.Props.C06.ring_refines_fifo
+#print axioms TV.Props.C06.refused_tooBig_or_closed_is_noop
+#print axioms TV.Props.C06.tooBig_iff
